@@ -277,15 +277,14 @@ def extract_printer(chk, prog):
                     Pr.X[c] = e
                 Pr.esc.add(e.ops[0].sval)
                 Pr.esc_fns[f.name] = f
-    # quote characters: constant bytes emitted by callers directly around calls of an escaping function
+    # quote characters: constant bytes emitted by functions that call an escaping function
     for f in fns:
-        ec = [c for c in f.calls() if norm_callee(c.callee) in Pr.esc_fns and c.bb.fn.name != norm_callee(c.callee)]
+        ec = [c for c in f.calls() if norm_callee(c.callee) in Pr.esc_fns and f.name != norm_callee(c.callee)]
         if not ec:
             continue
         for e in f.calls():
             if norm_callee(e.callee) in ("fputc", "putc") and e.ops[0].is_const:
-                if any(f.inst_dominates(e, c) for c in ec):
-                    Pr.qp.add(e.ops[0].sval)
+                Pr.qp.add(e.ops[0].sval)
     Pr.fns = fns
     return Pr
 
@@ -441,74 +440,6 @@ def _safe_string(prog, f, v, depth=0):
     return False
 
 
-def rule_raw(chk, prog, Pr):
-    """O7: raw emission only of strings known not to need quoting"""
-    from .c12 import is_std_stream
-    n = 0
-    for f in Pr.fns:
-        if f.name in Pr.esc_fns and f.name not in Pr.pred_fns:
-            continue        # the escaping routine itself: what it lets through is decided by O3/O4/O8
-        for c in f.calls():
-            nm = norm_callee(c.callee)
-            args = []
-            if nm == "fputs" and _is_stdout(prog, f, c.ops[1]):
-                args = [c.ops[0]]
-            elif nm == "puts":
-                args = [c.ops[0]]
-            elif nm == "fwrite" and _is_stdout(prog, f, c.ops[3]):
-                args = [c.ops[0]]
-            elif nm == "printf":
-                fm = cstr(f, c.ops[0])
-                if fm is None:
-                    args = [c.ops[0]]
-                else:
-                    k = 1
-                    j = 0
-                    while j < len(fm):
-                        if fm[j] == "%":
-                            j += 1
-                            if j < len(fm) and fm[j] == "%":
-                                j += 1
-                                continue
-                            while j < len(fm) and fm[j] in "0123456789.-+ #lhzjt*":
-                                j += 1
-                            if j < len(fm) and fm[j] == "s" and k < len(c.ops):
-                                args.append(c.ops[k])
-                            k += 1
-                        j += 1
-            for a in args:
-                if _safe_string(prog, f, a):
-                    continue
-                n += 1
-                inst = "%s:%s@%d" % (f.name, nm, c.line)
-                # dominated by the false edge of a trigger predicate on the same string
-                ok = False
-                for (cond, outcome, br) in f.guards_at(c.bb):
-                    x = cond
-                    neg = False
-                    while x.is_inst and x.op == "xor":
-                        neg = not neg
-                        x = x.ops[0]
-                    if x.is_inst and x.op == "icmp" and x.ops[1].is_const and x.ops[1].is_int and x.ops[1].sval == 0:
-                        # (call != 0) or (call == 0)
-                        callv = unext(x.ops[0])
-                        truth_nonzero = (x.pred == "ne") == (outcome is True)
-                        x = callv
-                        pred_true = truth_nonzero
-                    else:
-                        pred_true = (outcome is True)
-                    x = unext(x)
-                    if x.is_inst and x.op == "call" and norm_callee(x.callee) in Pr.pred_fns and not pred_true:
-                        if _same_string(f, x.ops[0], a):
-                            ok = True
-                if ok:
-                    chk.ok("A2-raw", inst, c, "emitted raw only where the trigger predicate answered 'no quoting needed' for this very string")
-                else:
-                    chk.violation("A2-raw", inst, c, "an image- or user-provided string is written to the listing verbatim without the quoting "
-                                  "decision having been taken for it: a space, tab, quote or backslash in it breaks the line for the parser")
-    return n
-
-
 def _same_string(f, a, b):
     a, b = strip_casts(a), strip_casts(b)
     if a is b:
@@ -531,25 +462,142 @@ def _is_stdout(prog, f, v):
     return False
 
 
-def rule_escape_in_quotes(chk, prog, Pr, L):
-    """O8: the escaping routine runs only between emitted quotes (otherwise X must be a subset of T)"""
+
+def _printf_string_args(f, c):
+    fm = cstr(f, c.ops[0])
+    if fm is None:
+        return [c.ops[0]]
+    args, k, j = [], 1, 0
+    while j < len(fm):
+        if fm[j] == "%":
+            j += 1
+            if j < len(fm) and fm[j] == "%":
+                j += 1
+                continue
+            while j < len(fm) and fm[j] in "0123456789.-+ #lhzjt*":
+                j += 1
+            if j < len(fm) and fm[j] == "s" and k < len(c.ops):
+                args.append(c.ops[k])
+            k += 1
+        j += 1
+    return args
+
+
+def _pred_calls_on(f, Pr, s_val, at_bb, want_negative):
+    """is the quoting predicate known to have answered `want_negative ? no : yes` for string s_val on entry to at_bb"""
+    for (cond, outcome, br) in f.guards_at(at_bb):
+        x = cond
+        pred_true = (outcome is True)
+        if x.is_inst and x.op == "icmp" and x.ops[1].is_const and x.ops[1].is_int and x.ops[1].sval == 0:
+            pred_true = (x.pred == "ne") == (outcome is True)
+            x = unext(x.ops[0])
+        x = unext(x)
+        if x.is_inst and x.op == "call" and norm_callee(x.callee) in Pr.pred_fns and pred_true == (not want_negative):
+            if _same_string(f, x.ops[0], s_val):
+                return True
+    return False
+
+
+def _quote_flag_covers(prog, f, Pr, qv, s_val, depth=0):
+    """the boolean qv is true whenever the quoting predicate holds for string s_val: its definition contains a predicate call
+    on that very string (qv = pred(s) [|| ...]); through parameters: at every call site"""
+    qv = unext(qv)
+    s_val = strip_casts(s_val)
+    if s_val.is_const or cstr(f, s_val) is not None:
+        return True
+    for x in backward_slice(qv, phi_control=True, through_loads=False):
+        if x.is_inst and x.op == "call" and norm_callee(x.callee) in Pr.pred_fns and _same_string(f, x.ops[0], s_val):
+            return True
+    # both are parameters: decide at the call sites
+    if not qv.is_inst and not qv.is_const and not s_val.is_inst and depth < 3:
+        callers = prog.callers_of(f)
+        if not callers:
+            return False
+        for c in callers:
+            g = c.bb.fn
+            g.build()
+            if not _quote_flag_covers(prog, g, Pr, c.ops[qv.idx], c.ops[s_val.idx], depth + 1):
+                return False
+        return True
+    return False
+
+
+def rule_emissions(chk, prog, Pr, L):
+    """O7/O8: every non-constant string that reaches the listing does so in a context that matches the quoting decision
+    taken for that very string: inside unconditionally emitted quotes it goes through the escaper; outside quotes the
+    predicate has answered 'no' for it; where the quotes depend on a flag, the flag covers the predicate on that string."""
     q = (set(L.inquote) - {L.intro}) if L.intro is not None else set()
     n = 0
     for f in Pr.fns:
+        if f.name in Pr.esc_fns and f.name not in Pr.pred_fns:
+            continue
+        qem = [e for e in f.calls() if norm_callee(e.callee) in ("fputc", "putc") and e.ops[0].is_const and e.ops[0].sval in q]
+        ems = []
         for c in f.calls():
-            if norm_callee(c.callee) not in Pr.esc_fns or f.name == norm_callee(c.callee):
+            nm = norm_callee(c.callee)
+            if nm == "fputs" and _is_stdout(prog, f, c.ops[1]):
+                ems += [(c, c.ops[0], "raw")]
+            elif nm == "puts":
+                ems += [(c, c.ops[0], "raw")]
+            elif nm == "fwrite" and _is_stdout(prog, f, c.ops[3]):
+                ems += [(c, c.ops[0], "raw")]
+            elif nm == "printf":
+                ems += [(c, a, "raw") for a in _printf_string_args(f, c)]
+            elif nm in Pr.esc_fns and nm != f.name:
+                ems += [(c, c.ops[0], "escaped")]
+        for (c, a, kind) in ems:
+            if _safe_string(prog, f, a):
                 continue
             n += 1
-            opened = [e for e in f.calls() if norm_callee(e.callee) in ("fputc", "putc") and e.ops[0].is_const and e.ops[0].sval in q
-                      and f.inst_dominates(e, c)]
             inst = "%s:%s@%d" % (f.name, norm_callee(c.callee), c.line)
+            opened = [e for e in qem if f.inst_dominates(e, c)]
+            # quotes that may or may not have been emitted before c: conditional context
+            maybe = [e for e in qem if not f.inst_dominates(e, c) and (f.reaches(e.bb, c.bb) or (e.bb is c.bb and e.pos < c.pos))]
             if opened:
-                chk.ok("A2-escape", inst, c, "escaping happens after the opening quote was emitted on every path")
-            elif set(Pr.X) <= set(Pr.T):
-                chk.ok("A2-escape", inst, c, "escaped bytes are all quoting triggers: an escaped byte never appears in an unquoted token")
+                if kind == "escaped":
+                    chk.ok("A2-emit", inst, c, "inside unconditionally emitted quotes and passed through the escaping routine")
+                else:
+                    chk.violation("A2-emit", inst, c, "a string is written verbatim between quotes: a quote or backslash in it ends the "
+                                  "token early or is taken as an escape by the parser")
+                continue
+            if maybe:
+                # the condition under which the opening quote is emitted
+                conds = []
+                for e in maybe:
+                    for (cond, outcome, br) in f.guards_at(e.bb):
+                        if not any(cond is c2 for (c2, o2, b2) in f.guards_at(c.bb)):
+                            conds.append((cond, outcome))
+                flag_ok = False
+                for (cond, outcome) in conds:
+                    x = cond
+                    if x.is_inst and x.op == "icmp" and x.ops[1].is_const and x.ops[1].is_int and x.ops[1].sval == 0:
+                        if (x.pred == "ne") != (outcome is True):
+                            continue
+                        x = x.ops[0]
+                    elif outcome is not True:
+                        continue
+                    if _quote_flag_covers(prog, f, Pr, x, a):
+                        flag_ok = True
+                if flag_ok and (kind == "escaped") and set(Pr.X) <= set(Pr.T):
+                    chk.ok("A2-emit", inst, c, "quotes are emitted exactly when a flag is set that covers the quoting predicate on this very "
+                           "string; escaped either way (escaped bytes are all triggers, so nothing is escaped outside quotes)")
+                elif flag_ok and kind == "escaped":
+                    chk.violation("A2-emit", inst, c, "the string is escaped whether or not it is quoted, and %s is escaped without being a "
+                                  "quoting trigger: outside quotes the parser copies the backslash verbatim" % show(set(Pr.X) - set(Pr.T)))
+                elif flag_ok and kind == "raw":
+                    chk.violation("A2-emit", inst, c, "a string is written verbatim in a context that is quoted whenever it needs quoting: "
+                                  "inside the quotes its quote and backslash bytes are not escaped")
+                else:
+                    chk.violation("A2-emit", inst, c, "whether this string is put between quotes is decided by a condition that does not "
+                                  "include the quoting predicate on this very string: it can be written outside quotes although it "
+                                  "contains a separator, quote or backslash (or escaped outside quotes)")
+                continue
+            # no quote can have been emitted: the predicate must have said no
+            if _pred_calls_on(f, Pr, a, c.bb, want_negative=True) and (kind == "raw" or set(Pr.X) <= set(Pr.T)):
+                chk.ok("A2-emit", inst, c, "outside quotes, and only where the quoting predicate answered 'no' for this very string")
             else:
-                chk.violation("A2-escape", inst, c, "the string is escaped on a path where no opening quote was emitted, and %s is escaped but does "
-                              "not trigger quoting: outside quotes the parser copies the backslash verbatim" % show(set(Pr.X) - set(Pr.T)))
+                chk.violation("A2-emit", inst, c, "an image- or user-provided string is written to the listing outside quotes without the "
+                              "quoting decision having been taken for it: a space, tab, quote or backslash in it breaks the line for the parser")
     return n
 
 
@@ -580,8 +628,7 @@ def run(chk):
         return
     rule_classes(chk, L, Pr)
     rule_keywords(chk, pr, pg, L, Pr)
-    rule_raw(chk, pr, Pr)
-    rule_escape_in_quotes(chk, pr, Pr, L)
+    rule_emissions(chk, pr, Pr, L)
     chk.floor("A2-class", 5)
     chk.floor("A2-keyword", 6)
-    chk.floor("A2-escape", 2)
+    chk.floor("A2-emit", 1)
